@@ -273,10 +273,67 @@ func c09LargeListsScenario(x *mc.X) *mc.Outcome {
 	return out
 }
 
+// Sibling nodes whose user functions reject input by returning ONE shared error value (a package-level sentinel,
+// as Go code usually declares its errors): a plain error, a hand-built *ZogIssue without a path, one with a path.
+// Where each occurrence is filed must not depend on which sibling was visited first.
+type c09Three struct {
+	A, B, C int
+}
+
+func c09SharedIssueScenario(x *mc.X) *mc.Outcome {
+	kind := x.Choose(3, "sentinel") // 0 plain error, 1 *ZogIssue without path, 2 *ZogIssue with a path and a type
+	var fails [3]bool
+	n := 0
+	for i := range fails {
+		fails[i] = x.Bool(fmt.Sprintf("field %d fails", i))
+		if fails[i] {
+			n++
+		}
+	}
+	if n < 2 {
+		return &mc.Outcome{Sig: "n/a"}
+	}
+	run := func(om zh.OrderMode) *Obs {
+		zh.Reset()
+		zh.Install(x, zh.PoolLIFO, om)
+		var sentinel error
+		switch kind {
+		case 0:
+			sentinel = fmt.Errorf("rejected")
+		case 1:
+			sentinel = (&z.ZogIssue{}).SetCode("rejected").SetMessage("rejected")
+		default:
+			sentinel = (&z.ZogIssue{}).SetCode("rejected").SetMessage("rejected").SetPath("custom").SetDType("number")
+		}
+		field := func(i int) z.ZogSchema {
+			return z.Preprocess(func(d int, c z.Ctx) (int, error) {
+				if fails[i] {
+					return 0, sentinel
+				}
+				return d, nil
+			}, z.Int().GT(0))
+		}
+		s := z.Struct(z.Schema{"a": field(0), "b": field(1), "c": field(2)})
+		var d c09Three
+		o := RunParse(s, map[string]any{"a": 1, "b": 2, "c": 3}, reflect.ValueOf(&d))
+		zh.Reset()
+		return o
+	}
+	bo := run(zh.OrderSorted)
+	po := run(zh.OrderFree)
+	out := &mc.Outcome{Traces: 2, Nontrivial: true, Sig: fmt.Sprintf("shared-sentinel|%d|%v|%v", kind, fails, bo.IssueStrings())}
+	out.Sample = map[string]any{"sentinel(0 error,1 issue without path,2 issue with path)": kind, "failing_fields": fails, "issues": bo.IssueStrings()}
+	if bo.Panic != po.Panic || !eqStrings(bo.IssueStrings(), po.IssueStrings()) {
+		x.Note("Struct{a,b,c: Preprocess(fn, Int.GT(0))}; the functions of fields %v return one shared error value (kind %d: 0 plain error, 1 *ZogIssue without a path, 2 *ZogIssue with path and type)", fails, kind)
+		out.Viol = append(out.Viol, &mc.Violation{Key: fmt.Sprintf("C09:shared-error-value:%d", kind), What: "where the issues of sibling nodes are filed depends on the order in which the siblings were visited", Expected: fmt.Sprint(bo.IssueStrings()), Observed: fmt.Sprint(po.IssueStrings())})
+	}
+	return out
+}
+
 func init() {
 	Register(&Prop{
 		ID:    "C09",
-		Rule:  "one execution = one core case (skeletons with a ≥2-field struct, ≤k focus units over full alphabets, both modes) run twice on the real code: canonical sorted visit order vs. the permutation chosen at every struct visit (all permutations enumerated, jointly across nesting levels and slice elements); plus the two-field shape grammar again under an installed formatter whose text names the issue's own path and code (messages are then part of the comparison); plus sibling lists of 1..1000 failing items each (hundreds of issues in one execution) under every order of visiting them; plus input documents holding any subset of keys that differ only in letter case / blanks (top level and nested) through Go map, zjson and zhttp JSON, and query / form requests holding any subset of the spellings of one list parameter (plain, [] suffix, one parameter per index) and of one scalar parameter in three letter cases, sorted order vs every permutation at every hooked range-over-map site; non-trivial = non-identity permutation on a deviating case; distinct = distinct (skeleton, mode, issue multiset, permutation vector)",
+		Rule:  "one execution = one core case (skeletons with a ≥2-field struct, ≤k focus units over full alphabets, both modes) run twice on the real code: canonical sorted visit order vs. the permutation chosen at every struct visit (all permutations enumerated, jointly across nesting levels and slice elements); plus the two-field shape grammar again under an installed formatter whose text names the issue's own path and code (messages are then part of the comparison); plus sibling lists of 1..1000 failing items each (hundreds of issues in one execution) under every order of visiting them; plus three sibling Preprocess nodes whose functions return one shared error value (plain error, *ZogIssue without / with a path) under every visit order; plus input documents holding any subset of keys that differ only in letter case / blanks (top level and nested) through Go map, zjson and zhttp JSON, and query / form requests holding any subset of the spellings of one list parameter (plain, [] suffix, one parameter per index) and of one scalar parameter in three letter cases, sorted order vs every permutation at every hooked range-over-map site; non-trivial = non-identity permutation on a deviating case; distinct = distinct (skeleton, mode, issue multiset, permutation vector)",
 		Floor: 50,
 		Bound: func(tier string) string {
 			k, e := coreK(tier)
@@ -294,6 +351,7 @@ func init() {
 			items = append(items, Item{Name: "input-keys", MaxDevs: -1, Run: c09InputKeysScenario})
 			items = append(items, Item{Name: "input-keys-flat", MaxDevs: -1, Run: c09FlatKeysScenario})
 			items = append(items, Item{Name: "large-sibling-lists", MaxDevs: -1, Run: c09LargeListsScenario})
+			items = append(items, Item{Name: "shared-error-value", MaxDevs: -1, Run: c09SharedIssueScenario})
 			// every message is the formatter's answer for its own issue, whatever was formatted just before it:
 			// the shape grammar and the small catalogue skeletons again, under a formatter that names path and code
 			for _, it := range coreItemsFiltered(tier, c09Scenario, func(a *Alpha) { a.Lite = true }, []int{0, 1}, 2, func(ns NamedSkel) bool {
